@@ -539,6 +539,22 @@ theorem C06_code_coherent_failure_atomic (C : Codec V) (hrt : C.RoundTrip) (raw 
   rw [execOp_eq_step]
   exact ⟨hs ▸ (C06_cache_coherent C hrt raw h).1, (C06_failure_atomic C s op F).1, (C06_failure_atomic C s op F).2.1⟩
 
+/-- **Lock discipline of the translated bodies** (regenerated, decided on every run): on every path of
+`Get/Has/Compute/Set/Delete` the shared cache fields are read only with the read or the write lock held; store
+calls, codec calls, the compute function and every write of the cache fields happen only with the write lock held;
+no lock is taken while one is held; and every `return` happens with no lock held or with its release deferred.
+This is the shape the protocol model of `C06_serialised` assumes (fast path under `RLock`, everything else inside
+one write section) — e.g. a cache inspection moved in front of `Lock()`, which leaves the lock skeleton and the
+sequential behaviour unchanged, breaks this obligation. -/
+theorem C06_code_lock_discipline :
+    lockOk prog.get = true ∧ lockOk prog.has = true ∧ lockOk prog.compute = true ∧ lockOk prog.set = true ∧
+    lockOk prog.delete = true := by decide
+
+/-- The walk is not vacuous: it rejects a body that inspects the cache before taking the lock, and one that
+returns with the lock held. -/
+example : lockOk (.seq (.cached 1 2) (.seq (.sync .lock) (.seq (.sync .deferUnlock) (.ret [])))) = false ∧
+    lockOk (.seq (.sync .lock) (.ret [])) = false := by decide
+
 /-- Non-vacuity: the translated `Compute` on the concrete codec, a failing encoder: reported, nothing stored. -/
 example : (execOp prog codec64 (fresh none) (.compute fun _ _ => .ok 5) { enc := true }).out = .err .enc ∧
     (execOp prog codec64 (fresh none) (.compute fun _ _ => .ok 5) { enc := true }).st = fresh none := by
